@@ -167,7 +167,10 @@ func runC19(c *Ctx) {
 								fmt.Sprintf("select blocking=%v with %d case(s)", x.Blocking, len(x.States)),
 								"send to a subscriber is a case of a select that has a default", "a full subscriber buffer blocks the watcher")
 							if fn.Pkg != nil && fn.Pkg.Pkg.Path() == PkgNet {
-								c19OnlyIf(c, fn, x, st)
+								if anchorFuncs[c.fname(fn)] {
+									c19OnlyIf(c, fn, x, st)
+								}
+								c19OnlyIfPaths(c, fn, x, st)
 							}
 						}
 					}
@@ -352,6 +355,162 @@ func c19OnlyIf(c *Ctx, fn *ssa.Function, sel *ssa.Select, st *ssa.SelectState) {
 		"a subscriber is notified of a change it did not ask for, or misses one it asked for")
 }
 
+// c19OnlyIfPaths decides the same rule as c19OnlyIf on the enumerated paths of
+// the anchored function(s) from which the send is reached, with helpers
+// enumerated in line: the select may live in a helper that receives the
+// subscriber slice and the change as parameters.
+func c19OnlyIfPaths(c *Ctx, fn *ssa.Function, sel *ssa.Select, st *ssa.SelectState) {
+	key := c.fname(fn) + ":send-only-if-mask-intersects@paths"
+	oracle := "channel ch ∈ m[iface][k] receives `change` only under (k & change) != 0, with iface/changes from the same changeSet entry"
+	bad := "a subscriber is notified of a change it did not ask for, or misses one it asked for"
+	// entry functions: fn itself when anchored, else the anchored functions that reach it
+	var entries []*ssa.Function
+	seen := map[*ssa.Function]bool{}
+	var up func(f *ssa.Function)
+	up = func(f *ssa.Function) {
+		root := f
+		for root.Parent() != nil {
+			root = root.Parent()
+		}
+		if seen[root] {
+			return
+		}
+		seen[root] = true
+		if anchorFuncs[c.fname(root)] {
+			entries = append(entries, root)
+			return
+		}
+		for _, caller := range c.callersOf()[root] {
+			up(caller)
+		}
+	}
+	up(fn)
+	nextOf := func(e *an.Expr, idx int) *ssa.Next {
+		if e == nil {
+			return nil
+		}
+		if ex, ok := e.V.(*ssa.Extract); ok && ex.Index == idx {
+			if nx, ok := ex.Tuple.(*ssa.Next); ok {
+				return nx
+			}
+		}
+		return nil
+	}
+	isRangeVal := func(e *an.Expr) bool { return e != nil && e.Op == an.OpElem && len(e.Args) == 1 && e.Name != "key" }
+	isRangeKey := func(e *an.Expr) bool { return e != nil && e.Op == an.OpElem && e.Name == "key" }
+	nSeen := 0
+	why := ""
+	abort := ""
+	for _, entry := range entries {
+		for _, p := range c.pathsO("R-C19-3", entry, an.PathOpts{EmitCut: true}) {
+			var chE, sendE *an.Expr
+			p.Instrs(func(in ssa.Instruction) {
+				if in == ssa.Instruction(sel) {
+					chE, sendE = p.Of(st.Chan), p.Of(st.Send)
+				}
+			})
+			if chE == nil {
+				continue
+			}
+			nSeen++
+			fail := func(w string) {
+				if why == "" {
+					why = w
+				}
+			}
+			// whatever the outcome of the non-blocking send, delivery goes on with the next subscriber:
+			// the path loops back to the header of the loop over the subscriber slice
+			var subLoop *ssa.BasicBlock
+			if chE.Op == an.OpElem && len(chE.Args) == 2 && chE.Args[1] != nil {
+				chE.Args[1].Walk(func(x *an.Expr) bool {
+					if x.Op == an.OpLoop {
+						if ph, ok := x.V.(*ssa.Phi); ok {
+							subLoop = ph.Block()
+						}
+					}
+					return true
+				})
+			}
+			if !(p.Cut && subLoop != nil && p.CutTo == subLoop) {
+				if abort == "" {
+					abort = fmt.Sprintf("after the send the path ends in %s instead of continuing with the next subscriber", pathKind(p))
+				}
+			}
+			if chE.Op != an.OpElem || len(chE.Args) != 2 || !isRangeVal(chE.Args[0]) {
+				fail("send channel " + chE.String() + " is not an element of a per-mask subscriber slice obtained by ranging over the per-interface map")
+				continue
+			}
+			subs := chE.Args[0]
+			nxInner := nextOf(subs, 2)
+			if nxInner == nil {
+				fail("subscriber slice is not the value of a range entry")
+				continue
+			}
+			// guard (k & change) != 0 with k the key of the same range entry
+			okMask := false
+			for _, a := range p.Atoms {
+				x, y, op, ok := effCmp(a)
+				if !ok || (op != token.NEQ) || x.Op != an.OpBin || x.Tok != token.AND {
+					continue
+				}
+				if z, isC := y.ConstInt(); !isC || z != 0 {
+					continue
+				}
+				k, other := x.Args[0], x.Args[1]
+				if !isRangeKey(k) {
+					k, other = other, k
+				}
+				if isRangeKey(k) && nextOf(k, 1) == nxInner && sameValue(other, sendE) {
+					okMask = true
+				}
+			}
+			if !okMask {
+				fail("send not guarded by (key & change) != 0 for the key of the slice holding the channel")
+				continue
+			}
+			// interest map = w.m[iface]; iface and the changes sent come from the same changeSet entry
+			interest := subs.Args[0]
+			commaOk := false
+			if b, idx := stripExtract(interest); idx == 0 {
+				interest, commaOk = b, true
+			}
+			if interest.Op != an.OpElem || len(interest.Args) != 2 || !interest.Args[0].IsField("m") || !isRangeKey(interest.Args[1]) {
+				fail("per-interface subscriptions " + interest.String() + " are not Watcher.m[iface] for the iface of a changeSet entry")
+				continue
+			}
+			nxOuter := nextOf(interest.Args[1], 1)
+			if sendE.Op != an.OpElem || len(sendE.Args) != 2 || !isRangeVal(sendE.Args[0]) || nxOuter == nil || nextOf(sendE.Args[0], 2) != nxOuter {
+				fail("interface name used for the lookup and the change sent do not come from the same changeSet entry")
+				continue
+			}
+			if commaOk {
+				tested := false
+				for _, a := range p.Atoms {
+					if b, idx := stripExtract(a.Cond); idx == 1 && a.Pos && sameValue(b, interest) {
+						tested = true
+					}
+				}
+				if !tested {
+					fail("lookup result used without testing ok")
+					continue
+				}
+			}
+		}
+	}
+	fact := fmt.Sprintf("%d path(s) through the send from %d anchored entry function(s); all send changes[i] to m[iface][k][j] under (k & changes[i]) != 0", nSeen, len(entries))
+	if why != "" {
+		fact = why
+	}
+	c.R.Check(why == "" && nSeen >= 1, "R-C19-3", key, c.fname(fn), c.pos(sel.Pos()), fact, oracle, bad)
+	fact2 := fmt.Sprintf("%d path(s) through the send all loop back to the subscriber loop", nSeen)
+	if abort != "" {
+		fact2 = abort
+	}
+	c.R.Check(abort == "" && nSeen >= 1, "R-C19-3", c.fname(fn)+":every-subscriber-visited", c.fname(fn), c.pos(sel.Pos()), fact2,
+		"a delivered or dropped notification never ends the iteration over the remaining subscribers",
+		"one subscriber's full buffer (or successful delivery) starves the other subscribers of the change")
+}
+
 func c19Close(c *Ctx) {
 	watch := c.needMethod("R-C19-4", "internal/netstate", "Watcher", "Watch")
 	if watch == nil {
@@ -372,18 +531,29 @@ func c19Close(c *Ctx) {
 				}
 				n++
 				// must be in a closure of Watch that is deferred in Watch, holding the write lock
-				okPlace := fn.Parent() == watch && lockHeld(fn, PkgNet, "Watcher", "mu") == "W"
+				// ... or in a helper that only Watch calls, and only through that defer
+				onlyWatch := fn.Parent() == watch
+				if fn.Parent() == nil && fn != watch && !anchorFuncs[c.fname(fn)] {
+					callers := c.callersOf()[fn]
+					onlyWatch = len(callers) == 1 && callers[0] == watch
+				}
+				okPlace := onlyWatch && lockHeld(fn, PkgNet, "Watcher", "mu") == "W"
 				deferred := false
 				var deferInstr *ssa.Defer
+				nUses := 0
 				for _, wb := range watch.Blocks {
 					for _, win := range wb.Instrs {
-						if d, ok := win.(*ssa.Defer); ok {
-							if mc, ok := d.Call.Value.(*ssa.MakeClosure); ok && mc.Fn == fn {
+						if ci, ok := win.(ssa.CallInstruction); ok && an.StaticCallee(ci.Common()) == fn {
+							nUses++
+							if d, ok := win.(*ssa.Defer); ok {
 								deferred = true
 								deferInstr = d
 							}
 						}
 					}
+				}
+				if nUses != 1 {
+					deferred = false
 				}
 				// single-use guard dominates the defer: SwapUint32(...) != 0 → panic
 				guarded := false
